@@ -46,6 +46,21 @@ class AbstractPoly:
     def exterior(self):
         return Outline(self)
 
+    def intersects(self, other):
+        # SH-INTERSECTS: the same (symmetric) predicate the spatial index evaluates
+        from pyvc.lib.shapely_ import _fn
+        pred = core.ctx()._shp_fns.get('pred_intersects')
+        if pred is None or not hasattr(other, 'z'):
+            raise core.Unsupported('polygon.intersects of something that is not a geometry term')
+        return mk_bool(pred(other.z, self.term))
+
+    def intersection(self, other):
+        from pyvc.lib.shapely_ import intersection_of
+        return intersection_of(self.term, other)
+
+    def _geom_kind(self, name):
+        return name in ('Polygon', 'BaseGeometry')
+
     def _is(self, other):
         return False if other is None else self is other
 
